@@ -165,14 +165,23 @@ func (c *c06Case) Run(ctx *core.Ctx) {
 			"nbsp-between":   "<b>a</b>&nbsp;<i>b</i>",
 			"padded":         "\n  <b>a</b> <i>b</i>\n",
 			"blank":          " \n ",
+			// a comment is not content: alone it supplies nothing, beside a slot template it changes nothing
+			"comment": "<b>a</b>",
 		}[c.Kind]
-		wantText := map[string]string{"inline-space": "a b", "inline-newline": "a\nb", "text-space": "x a y", "nbsp": "\u00a0", "nbsp-between": "a\u00a0b", "padded": "a b", "blank": "FB"}[c.Kind]
+		wantText := map[string]string{"inline-space": "a b", "inline-newline": "a\nb", "text-space": "x a y", "nbsp": "\u00a0", "nbsp-between": "a\u00a0b", "padded": "a b", "blank": "FB", "comment": "a"}[c.Kind]
 		supplied := content
 		switch c.Form {
 		case "vslot":
 			supplied = "<template v-slot>" + content + "</template>"
 		case "named":
 			supplied = "<template #body>" + content + "</template>"
+		}
+		if c.Kind == "comment" {
+			if c.Form == "plain" {
+				supplied, wantText = "\n  <!-- nothing here yet -->\n", "FB"
+			} else {
+				supplied = "<!-- before -->\n" + supplied + "\n<!-- after -->"
+			}
 		}
 		slot := "<slot>FB</slot>"
 		if c.Form == "named" {
@@ -181,6 +190,11 @@ func (c *c06Case) Run(ctx *core.Ctx) {
 		files = Files{
 			"page.vuego": `<section><template include="c.vuego">` + supplied + `</template></section>`,
 			"c.vuego":    `<pre class="w">` + slot + `</pre>`,
+		}
+		if c.Kind == "comment" && c.Form == "named" {
+			// the default slot, for which only comments were written, shows its fallback
+			files["c.vuego"] += `<u><slot>DFB</slot></u>`
+			expectText("u", []string{"DFB"}, "comment-beside-named-template")
 		}
 		checks = append(checks, func(nodes []*html.Node) (string, string) {
 			pre := htmlcmp.Find(nodes, func(n *html.Node) bool { return n.Data == "pre" })
@@ -567,7 +581,7 @@ func init() {
 					emit(&c06Case{Part: "wide", Var: fmt.Sprint(n), Form: form})
 				}
 			}
-			for _, k := range []string{"inline-space", "inline-newline", "text-space", "nbsp", "nbsp-between", "padded", "blank"} {
+			for _, k := range []string{"inline-space", "inline-newline", "text-space", "nbsp", "nbsp-between", "padded", "blank", "comment"} {
 				for _, form := range []string{"plain", "vslot", "named"} {
 					emit(&c06Case{Part: "ws", Kind: k, Form: form})
 				}
